@@ -1,2 +1,26 @@
-(* C20 -- placeholder *)
-From NV Require Import Model.Nucleo.
+(* C20 -- active_injectors counts the live injectors of the current stream.
+   Statement in Spec/NucleoStatements.v, proof in Proofs/NucleoFacts.v (bookkeeping invariant InvA over
+   the protocol model: which of the matcher / worker / snapshot handles point at the current stream as a
+   function of the UI state).  Quantification: every history of injector(), clone, drop, restart(true|false),
+   edits, ticks (completing or timing out, with the background run at any stage), injector activity - at
+   every point where the UI thread is between API calls.  Arc::strong_count is modelled as the number of
+   live handles (trusted Arc semantics); the theorem also shows the usize subtraction never underflows. *)
+From Coq Require Import NArith List Bool.
+From NV Require Import Model.Nucleo Spec.NucleoStatements Proofs.NucleoFacts.
+Import Nucleo.
+Import ListNotations.
+Local Open Scope N_scope.
+
+Theorem C20_count : forall sc ln, C20_count_stmt sc ln.
+Proof. exact NucleoFacts.C20_count. Qed.
+
+(* non-vacuity: the history of the crate's own unit test, extended by a restart in between *)
+Example C20_nonvacuous :
+  let sc := fun _ _ _ => @None N in let ln := fun _ _ => 0 in
+  let s := run_events sc ln init_nstate
+             [ENewInjector 1; ENewInjector 2; EDropInjector 2; ERestart false; ENewInjector 3;
+              ETickBegin true; ETick; ETick; ETick; ETick; ETick; ETick] in
+  active_injectors s = 1 /\ live_injectors s = 1 /\ cur s = 1.
+Proof. vm_compute. repeat split; reflexivity. Qed.
+
+Print Assumptions C20_count.
